@@ -19,6 +19,7 @@ THEOREMS = ["Privacy.hidden_inherits", "Output.hidden_inherits", "Output.hidden_
             "Output.private_marked_ChildTable", "Output.private_marked_packageInitTable", "Output.private_marked_baseTables",
             "Output.private_marked_childlist", "Output.private_marked_sidebar", "Output.private_marked_moduleIndex",
             "Output.private_marked_allDocuments", "Output.private_marked_nameIndex", "Output.classIndex_marker",
+            "Output.private_marked_classIndex_partial", "Output.private_marked_classIndex_counterexample",
             "Output.classNodePrivate_sound", "Output.ctxPrivate_of_private",
             "Output.no_trace_texts_partial", "Output.no_trace_texts_counterexample", "Output.no_trace_named_file",
             "Output.private_marked_undocumentedSummary", "Output.no_trace_alias_counterexample_old",
@@ -52,6 +53,10 @@ ASSUMPTIONS = [
     "zope.interface 'from' notes and extension-provided extra_info are not generated (unguarded in the code, see notes)",
 ]
 PARTIAL = {
+    "Output.private_marked_classIndex_partial": "classIndex.html: the entry of a PRIVATE class is marked when the class has no subclass; "
+                                                "summary.isClassNodePrivate marks the <li> (which also holds the subclasses' entries) only when "
+                                                "every subclass - visible or not - is private too: Output.private_marked_classIndex_counterexample, "
+                                                "open finding private-unmarked:class-index, proposed repair fixes/C12-class-index-private-row.diff",
     "Output.no_trace_texts_partial": "the unlinked root nodes of classIndex.html, under: no listed class has an invisible base or an "
                                      "unresolved base expression naming an invisible object (counterexample: "
                                      "no_trace_texts_counterexample; open finding hidden-trace:classindex-root-name). "
@@ -63,7 +68,8 @@ EXPLANATION = ("The producer table of DESIGN C12 is a Lean function from the obj
                "the only remaining mention of a hidden object is the unlinked base node of classIndex.html: open finding.")
 
 LISTING_NAMES = {"table": "member-table", "detail": "member-details", "sidebar": "sidebar", "sidebar-inherited": "sidebar",
-                 "modindex": "module-index", "alldocs": "all-documents", "undoc": "undocumented-summary"}
+                 "modindex": "module-index", "alldocs": "all-documents", "undoc": "undocumented-summary",
+                 "classindex": "class-index", "nameindex": "name-index"}
 # listings whose marker is the object's own privacy (undoccedSummary.html would use summary.isPrivate: the object or a container)
 OWN_PRIVACY_LISTINGS = {"table", "detail", "sidebar", "sidebar-inherited", "modindex", "alldocs"}
 
@@ -169,6 +175,24 @@ def oracle(ctx: Ctx, res) -> None:
                 ctx.fail("private-unmarked:" + LISTING_NAMES[kind], payload,
                          "%s: the %s entry of PRIVATE %s has no private marker" % (fn, kind, o["full"]))
     ctx.count("private-entries-checked", found)
+    # -- a property is one thing for the user (and for Python: C.secret.fset / .fdel): pydoctor stores its setter and
+    # deleter as sibling functions 'secret.setter' / 'secret.deleter'; they are never more visible than the property
+    by_parent_name = {(o["parent"], o["name"]): o for o in t.objs if o.get("incontents", True)}
+    for o in t.objs:
+        base, dot, acc = o["name"].rpartition(".")
+        if not dot or acc not in ("setter", "deleter") or o["kind"] != "F" or o["parent"] is None:
+            continue
+        prop = by_parent_name.get((o["parent"], base))
+        if prop is None or prop["kind"] != "A" or not t.documented(t.objs[o["parent"]]):
+            continue
+        # what pydoctor did with the accessor (its own isVisible / privacyClass), against what the rules say of the property
+        shown = o.get("impl_visible", o["visible"]) and o["id"] in t.reachable
+        if t.hidden(prop) and shown:
+            ctx.fail("hidden-trace:property-accessor", payload,
+                     "%s is documented (anchor, rows, search, inventory) although the property %s is hidden" % (o["full"], prop["full"]))
+        elif prop["privacy"] == "R" and o.get("impl_privacy", o["privacy"]) == "U" and shown and not t.hidden(prop):
+            ctx.fail("private-unmarked:property-accessor", payload,
+                     "%s is listed as public although the property %s is PRIVATE" % (o["full"], prop["full"]))
     # -- and a PUBLIC object is not marked in the listings that use its own privacy
     pub = {oc.canon_url(o["url"]): o for o in t.objs if o["privacy"] == "U" and t.documented(o) and o["url"] is not None}
     for fn, pg in cr["pages"].items():
